@@ -21,7 +21,7 @@ func intrinsicEffect(name string) (string, bool) {
 		strings.HasPrefix(name, "sync/atomic.CompareAndSwap"), strings.HasPrefix(name, "sync/atomic.Swap"):
 		return "arg0", true
 	case strings.HasPrefix(name, "(*sync.Mutex)."), strings.HasPrefix(name, "(*sync.RWMutex)."):
-		return "none", true
+		return "lock", true
 	case strings.HasPrefix(name, repoPfx+"logging."), strings.HasPrefix(name, "math."), strings.HasPrefix(name, "runtime.Gosched"),
 		strings.HasPrefix(name, "time.Sleep"), name == repoPfx+"util.Sleep", strings.HasPrefix(name, "strings."), strings.HasPrefix(name, "strconv."),
 		strings.HasPrefix(name, "reflect."), name == "(time.Duration).Nanoseconds", name == "(time.Duration).Milliseconds":
@@ -128,8 +128,34 @@ func (x *Engine) intrinsic(fr *Frame, st *State, name string, callee *ssa.Functi
 		return Val{T: old, Typ: rt()}, true
 	case strings.HasPrefix(name, "(*sync.Mutex)."), strings.HasPrefix(name, "(*sync.RWMutex)."):
 		x.lockEvent(fr, st, name, args[0], pos)
-		if sig.Results().Len() == 1 { // TryLock
-			return x.freshVal("trylock", rt(), st), true
+		// locks held by this thread: per mutex address, a write count and a read count
+		op := name[strings.LastIndex(name, ".")+1:]
+		bump := func(key string, d int) {
+			x.regComp(key, "(Array Int Int)")
+			cur := x.get(st, key)
+			st.h[key] = x.name("lk", "(Array Int Int)", fmt.Sprintf("(store %s %s (%s (select %s %s) 1))", cur, args[0].T, map[int]string{1: "+", -1: "-"}[d], cur, args[0].T))
+		}
+		switch op {
+		case "Lock":
+			bump("Lock:w", 1)
+		case "Unlock":
+			bump("Lock:w", -1)
+		case "RLock":
+			bump("Lock:r", 1)
+		case "RUnlock":
+			bump("Lock:r", -1)
+		}
+		if sig.Results().Len() == 1 { // TryLock / TryRLock
+			ok := x.freshVal("trylock", rt(), st)
+			x.regComp("Lock:w", "(Array Int Int)")
+			x.regComp("Lock:r", "(Array Int Int)")
+			key := "Lock:w"
+			if op == "TryRLock" {
+				key = "Lock:r"
+			}
+			cur := x.get(st, key)
+			st.h[key] = x.name("lk", "(Array Int Int)", fmt.Sprintf("(store %s %s (+ (select %s %s) (ite %s 1 0)))", cur, args[0].T, cur, args[0].T, ok.T))
+			return ok, true
 		}
 		return Val{}, true
 	case name == "(*sync.Once).Do":
